@@ -6,7 +6,7 @@ Decides, per feature configuration (none = built-in fallback, libm, mm, std):
       interpreted over the five classes of its argument (sign x integrality, -0.0) relative to
       floor(x) and must give offset 0 on each (|x| < 2^63); the other back-ends' `floor`
       resolves to a function called floor/floorf of that back-end
-  F2  fallback::abs clears exactly the sign bit: from_bits(to_bits(x) & 0x7FFF_FFFF)
+  F2  fallback::abs returns the argument's magnitude bits under a clear sign bit (bit-pattern interpretation per sign of x)
   F3  fallback::rem_euclid(x, m) (also used by the libm back-end) is r + j*m with r = x % m and
       j = 1 exactly when x is negative (sign bit): the result lies in [0, m] and is congruent
       to x, for m > 0, by a case split on the sign class of x
@@ -62,6 +62,163 @@ def const_u32(t):
     return None
 
 
+class _NoBits(Exception):
+    pass
+
+
+def _bv(v, sign):
+    """value -> 32 bit entries (bit 0 first): 0 | 1 | ("x", i) | ("nx", i) - bit i of the argument X (resp. its complement); X's own
+    sign bit is the scenario's constant. Float values stand for their bit patterns."""
+    import struct
+    from . import absint as A
+    if isinstance(v, bool):
+        v = int(v)
+    if isinstance(v, int):
+        return [(v >> i) & 1 for i in range(32)]
+    if not isinstance(v, tuple):
+        raise _NoBits(repr(v)[:60])
+    if v[0] == "f":
+        w = struct.unpack("<I", struct.pack("<f", v[1]))[0]
+        return [(w >> i) & 1 for i in range(32)]
+    if v == ("sym", "X"):
+        return [("x", i) for i in range(31)] + [sign]
+    if v[0] != "symop":
+        raise _NoBits(repr(v)[:60])
+    op = v[1]
+
+    def flip(e):
+        return 1 - e if isinstance(e, int) else (("nx" if e[0] == "x" else "x"), e[1])
+
+    def both(f):
+        x, y = _bv(v[2], sign), _bv(v[3], sign)
+        return [f(p, q) for p, q in zip(x, y)]
+
+    def band(p, q):
+        if p == 0 or q == 0:
+            return 0
+        if p == 1:
+            return q
+        if q == 1:
+            return p
+        if p == q:
+            return p
+        if p == flip(q):
+            return 0
+        raise _NoBits("and of unrelated bits")
+
+    def bxor(p, q):
+        if isinstance(q, int):
+            return flip(p) if q else p
+        if isinstance(p, int):
+            return flip(q) if p else q
+        if p == q:
+            return 0
+        if p == flip(q):
+            return 1
+        raise _NoBits("xor of unrelated bits")
+    if op in ("bits", "fbits") or op.startswith("cast:u32") or op.startswith("cast:i32"):
+        return _bv(v[2], sign)
+    if op in ("Neg", "fneg"):
+        x = _bv(v[2], sign)
+        return x[:31] + [flip(x[31])]
+    if op == "fabs":
+        return _bv(v[2], sign)[:31] + [0]
+    if op == "copysign":
+        return _bv(v[2], sign)[:31] + [_bv(v[3], sign)[31]]
+    if op == "BitAnd":
+        return both(band)
+    if op == "BitOr":
+        return both(lambda p, q: flip(band(flip(p), flip(q))))
+    if op == "BitXor":
+        return both(bxor)
+    if op == "BitNot":
+        return [flip(e) for e in _bv(v[2], sign)]
+    if op in ("Shl", "Shr"):
+        n = v[3]
+        if not isinstance(n, int) or not 0 <= n < 32:
+            raise _NoBits("shift by %r" % (n,))
+        x = _bv(v[2], sign)
+        return ([0] * n + x[:32 - n]) if op == "Shl" else (x[n:] + [0] * n)
+    if op in ("Mul", "Sub", "fmax", "fmin"):
+        l, r = v[2], v[3]
+        if op == "Mul":
+            for c, o in ((l, r), (r, l)):
+                if c == ("f", 1.0):
+                    return _bv(o, sign)
+                if c == ("f", -1.0):
+                    x = _bv(o, sign)
+                    return x[:31] + [flip(x[31])]
+        if op == "Sub" and l in (("f", 0.0), ("f", -0.0)):       # 0 - x: exact negation of a non-zero x
+            x = _bv(r, sign)
+            return x[:31] + [flip(x[31])]
+        if op in ("fmax", "fmin"):
+            x, y = _bv(l, sign), _bv(r, sign)
+            if x[:31] == y[:31] and isinstance(x[31], int) and isinstance(y[31], int):      # the same magnitude: the sign decides
+                want = 0 if op == "fmax" else 1
+                return x if x[31] == want else y
+    raise _NoBits("%s on bit patterns" % op)
+
+
+def _fsign(v, sign):
+    """sign of a float value in the scenario (X non-zero with the given sign bit): -1 | 0 | 1 | None"""
+    if isinstance(v, tuple) and v[0] == "f":
+        return (v[1] > 0) - (v[1] < 0)
+    try:
+        x = _bv(v, sign)
+    except _NoBits:
+        return None
+    if x[:31] == [("x", i) for i in range(31)] and isinstance(x[31], int):
+        return -1 if x[31] else 1
+    return None
+
+
+def abs_rule(rep, prog):
+    """F2: the built-in abs returns |x| for every non-zero finite x: interpreted once per sign of x with the argument's bit pattern as 31 symbolic
+    magnitude bits and a constant sign bit; whatever it does (mask, shift pair, branch on the sign and negate, max(x, -x), copysign), the result's
+    bit pattern must be the argument's magnitude bits under a clear sign bit. (+-0.0 and NaN are left alone: -0.0 == 0.0, NaN has no value.)"""
+    from . import symalg as S, absint as A
+    cfg = prog.config
+    ab = prog.body(FL + "fallback::abs")
+    got = {}
+    for name, sign in (("x > 0", 0), ("x < 0", 1)):
+        def orc(op, a_, b_, sign=sign):
+            sa_, sb_ = _fsign(a_, sign), _fsign(b_, sign)
+            fl = lambda t: isinstance(t, tuple) and (t[0] == "f" or t == ("sym", "X") or (t[0] == "symop" and t[1] in ("Neg", "fneg", "fabs", "fbits", "copysign", "Mul", "Sub", "fmax", "fmin")))  # noqa: E731
+            if fl(a_) and fl(b_):
+                if sa_ is None or sb_ is None or (sa_ == sb_ and sa_ != 0):
+                    return None
+                return {"Lt": sa_ < sb_, "Le": sa_ <= sb_, "Gt": sa_ > sb_, "Ge": sa_ >= sb_, "Eq": sa_ == sb_, "Ne": sa_ != sb_}.get(op)
+            try:
+                x, y = _bv(a_, sign), _bv(b_, sign)
+            except _NoBits:
+                return None
+            if all(isinstance(e, int) for e in x + y):
+                xi, yi = (sum(e << i for i, e in enumerate(z)) for z in (x, y))
+                return {"Lt": xi < yi, "Le": xi <= yi, "Gt": xi > yi, "Ge": xi >= yi, "Eq": xi == yi, "Ne": xi != yi}.get(op)
+            return None
+        un = lambda nm: (lambda it_, a_, _c, _d: ("symop", nm, A.deref_all(it_, a_[0]), None))  # noqa: E731
+        bi = lambda nm: (lambda it_, a_, _c, _d: ("symop", nm, A.deref_all(it_, a_[0]), A.deref_all(it_, a_[1])))  # noqa: E731
+        it = S.interp(prog, models={"f32>::to_bits": un("bits"), "f32>::from_bits": un("fbits"), "f32>::abs": un("fabs"), "f32>::copysign": bi("copysign"),
+                                    "f32>::max": bi("fmax"), "f32>::min": bi("fmin"),
+                                    "f32>::is_sign_negative": lambda _it, _a, _c, _d, sign=sign: sign,
+                                    "f32>::is_sign_positive": lambda _it, _a, _c, _d, sign=sign: 1 - sign}, oracle=orc)
+        try:
+            v = A.deref_all(it, it.call_body(ab, [S.sym("X")]))
+            got[name] = _bv(v, sign)
+        except (A.Undecided, A.Panic, _NoBits) as e:
+            raise common.Infra("C20.F2: fallback::abs has a form the bit-pattern analysis cannot follow (%s, %s); rule needs re-confirmation" % (name, e))
+    want = [("x", i) for i in range(31)] + [0]
+
+    def show(x):
+        keep = sum(1 for i, e in enumerate(x[:31]) if e == ("x", i))
+        return "sign bit %s, %d of 31 magnitude bits kept" % (x[31] if isinstance(x[31], int) else "of x", keep)
+    bad = {n: x for n, x in got.items() if x != want}
+    rep.inst("C20.F2", "fallback::abs(x) has the bit pattern of x with the sign bit clear, for x > 0 and for x < 0 (31 symbolic magnitude bits): %s" % (not bad), config=cfg)
+    if bad:
+        rep.violate("C20.F2", "F2|fallback-abs", ab.where(), "the built-in abs does not return |x|: " + "; ".join("for %s: %s" % (n, show(x)) for n, x in bad.items()), config=cfg)
+
+
+
 def fallback_rules(rep, prog):
     cfg = prog.config
     # ---- F1
@@ -81,22 +238,7 @@ def fallback_rules(rep, prog):
     if bad:
         rep.violate("C20.F1", "F1|fallback-floor", fb.where(), "the built-in floor is not the exact floor: " + "; ".join(bad), config=cfg)
     # ---- F2
-    ab = prog.body(FL + "fallback::abs")
-    rt = ret_term(ab)
-    ok = rt[0] == "call" and last_seg(rt[1]) == "from_bits"
-    if ok:
-        a = T.strip(rt[2][0], sites=True, refs=True)
-        ok = a[0] == "bin" and a[1] == "BitAnd"
-        if ok:
-            ops = [T.strip(x, sites=True, refs=True) for x in (a[2], a[3])]
-            consts = [const_u32(x) for x in ops if const_u32(x) is not None]
-            bits = [x for x in ops if x[0] == "call" and last_seg(x[1]) == "to_bits" and T.strip(x[2][0], refs=True) == ("param", 1)]
-            ok = len(consts) == 1 and len(bits) == 1 and consts[0] == 0x7FFFFFFF
-    rep.inst("C20.F2", "fallback::abs = from_bits(to_bits(x) & 0x7FFFFFFF): %s  [%s]" % (ok, T.show(rt)[:120]), config=cfg)
-    if not ok:
-        if not (rt[0] == "call" and last_seg(rt[1]) == "from_bits"):
-            raise common.Infra("C20.F2: fallback::abs is no longer a bit operation (%s); rule needs re-confirmation" % T.show(rt)[:120])
-        rep.violate("C20.F2", "F2|fallback-abs", ab.where(), "the built-in abs does not clear exactly the sign bit of its argument (%s)" % T.show(rt)[:160], config=cfg)
+    abs_rule(rep, prog)
     # ---- F3: interpreted once per sign of x, with `x % m` an opaque remainder R — however the sign is turned into the shift
     # (a cast of the flag, a match, an if)
     from . import symalg as S, absint as A
